@@ -452,6 +452,8 @@ def r14_6(ctx):
 
 
 def run(ctx):
+    from .sweep import r14_9 as _r14_9
+    _r14_9(ctx)
     # free lists, live set and arena list belong to one heap object (and are re-created by its constructor, which
     # is how a forked child gets an empty heap)
     from .generic import per_instance_state
